@@ -10,6 +10,7 @@ import (
 
 type optObj interface {
 	SetOption(string, interface{}) error
+	GetOption(string) (interface{}, error)
 }
 
 type subref struct {
@@ -238,3 +239,52 @@ func VH06b_pub() {
 
 // sameIdx: identity of the byte terms (distinguishes equal-valued distinct publications only by position; kept permissive)
 func sameIdx(a, b []byte) bool { return true }
+
+// VH06c_unsub_qlen: the configured receive queue length survives an unsubscribe.
+func VH06c_unsub_qlen() {
+	lab := "C06/unsub-qlen"
+	q := 1 + verif.Choice("qlen", 2) // 1 or 2
+	sock := vp.New("sub")
+	side := vt.Listen(sock, "a")
+	pub := side.Peer("pub")
+	var o optObj = sock
+	if verif.Choice("ctx", 2) == 1 {
+		c, err := sock.OpenContext()
+		verif.Assert(err == nil, lab+"/context")
+		o = c
+	}
+	type rcv interface {
+		RecvMsg() (*mangos.Message, error)
+	}
+	verif.Assert(o.SetOption(mangos.OptionReadQLen, q) == nil, lab+"/set-qlen")
+	verif.Assert(o.SetOption(mangos.OptionSubscribe, []byte{}) == nil, lab+"/subscribe-all")
+	t := verif.Bytes("topic", 1)
+	verif.Assert(o.SetOption(mangos.OptionSubscribe, t) == nil, lab+"/subscribe-topic")
+	verif.Assert(o.SetOption(mangos.OptionUnsubscribe, t) == nil, lab+"/unsubscribe-topic")
+	// overfill: q+2 publications, only the last q may remain
+	n := q + 2
+	var bodies [][]byte
+	for i := 0; i < n; i++ {
+		b := []byte{byte('a' + i), verif.Byte("b")}
+		bodies = append(bodies, b)
+		pub.Deliver(b)
+		verif.Quiesce()
+	}
+	got, ok := o.GetOption(mangos.OptionReadQLen)
+	verif.Assert(ok == nil && got.(int) == q, lab+"/get-qlen")
+	for i := 0; i < q; i++ {
+		var m *mangos.Message
+		var err error
+		g := verif.Go("recv", func() { m, err = o.(rcv).RecvMsg() })
+		verif.Quiesce()
+		verif.Assert(g.Done() && err == nil, lab+"/recv")
+		if g.Done() && err == nil {
+			verif.Assert(verif.BytesEq(m.Body, bodies[n-q+i]), lab+"/queue-longer-than-configured-after-unsubscribe")
+		}
+	}
+	g := verif.Go("recv-extra", func() { o.(rcv).RecvMsg() })
+	verif.Quiesce()
+	verif.Assert(!g.Done(), lab+"/more-messages-queued-than-READQ-LEN")
+	verif.Reach("qlen-kept")
+	sock.Close()
+}
